@@ -270,6 +270,11 @@ func rewriteFile(fset *token.FileSet, f *ast.File, info *types.Info, yields bool
 				changed = true
 			}
 		case *ast.RangeStmt:
+			if st := rewriteMapRange(info, n); st != nil {
+				c.Replace(st)
+				changed = true
+				break
+			}
 			if isChan(info, n.X) {
 				var lhs []ast.Expr
 				if n.Key != nil {
@@ -386,4 +391,74 @@ func rewriteSelect(s *ast.SelectStmt, errs *[]string) ast.Stmt {
 	arms = append(arms, &ast.CaseClause{List: nil, Body: []ast.Stmt{&ast.ExprStmt{X: &ast.CallExpr{Fun: ast.NewIdent("panic"), Args: []ast.Expr{&ast.BasicLit{Kind: token.STRING, Value: `"vs: unreachable select arm"`}}}}}})
 	args := append([]ast.Expr{ast.NewIdent(hasDefault)}, cases...)
 	return &ast.SwitchStmt{Tag: call("Select", args...), Body: &ast.BlockStmt{List: arms}}
+}
+
+// rewriteMapRange turns `for k, v := range m { body }` over a map into a loop over vs.MapOrder(m),
+// which makes the iteration order an explored environment choice. Only where m is a plain
+// variable or field expression (it is evaluated more than once) and the loop variables are
+// declared by the statement or absent; anything else is left alone.
+func rewriteMapRange(info *types.Info, n *ast.RangeStmt) ast.Stmt {
+	tv, ok := info.Types[n.X]
+	if !ok || tv.Type == nil {
+		return nil
+	}
+	if _, isMap := tv.Type.Underlying().(*types.Map); !isMap {
+		return nil
+	}
+	// unwrap the access wrapper vs.MR(m, site) and parentheses
+	m := n.X
+	for {
+		if p, ok := m.(*ast.ParenExpr); ok {
+			m = p.X
+			continue
+		}
+		if c, ok := m.(*ast.CallExpr); ok {
+			if sel, ok := c.Fun.(*ast.SelectorExpr); ok && sel.Sel.Name == "MR" && len(c.Args) == 2 {
+				m = c.Args[0]
+				continue
+			}
+		}
+		break
+	}
+	if !pureExpr(m) {
+		return nil
+	}
+	if n.Tok != token.DEFINE && (n.Key != nil || n.Value != nil) {
+		return nil
+	}
+	key := ast.Expr(ast.NewIdent("key__vs"))
+	if id, ok := n.Key.(*ast.Ident); ok && id.Name != "_" {
+		key = id
+	}
+	var pre []ast.Stmt
+	if id, ok := n.Value.(*ast.Ident); ok && id.Name != "_" {
+		pre = append(pre,
+			&ast.AssignStmt{Lhs: []ast.Expr{id, ast.NewIdent("ok__vs")}, Tok: token.DEFINE, Rhs: []ast.Expr{&ast.IndexExpr{X: n.X, Index: key}}},
+			&ast.IfStmt{Cond: &ast.UnaryExpr{Op: token.NOT, X: ast.NewIdent("ok__vs")}, Body: &ast.BlockStmt{List: []ast.Stmt{&ast.BranchStmt{Tok: token.CONTINUE}}}},
+		)
+	}
+	body := append(pre, n.Body.List...)
+	return &ast.RangeStmt{Key: ast.NewIdent("_"), Value: key, Tok: token.DEFINE, X: call("MapOrder", n.X), Body: &ast.BlockStmt{List: body}}
+}
+
+func pureExpr(e ast.Expr) bool {
+	switch n := e.(type) {
+	case *ast.Ident:
+		return true
+	case *ast.SelectorExpr:
+		return pureExpr(n.X)
+	case *ast.ParenExpr:
+		return pureExpr(n.X)
+	case *ast.StarExpr:
+		return pureExpr(n.X)
+	case *ast.UnaryExpr:
+		return n.Op == token.AND && pureExpr(n.X)
+	case *ast.CallExpr: // the access wrappers (*vs.R(&x.f, site)) evaluate nothing but their operand
+		if sel, ok := n.Fun.(*ast.SelectorExpr); ok {
+			if id, ok := sel.X.(*ast.Ident); ok && id.Name == "vs" && (sel.Sel.Name == "R" || sel.Sel.Name == "MR") && len(n.Args) == 2 {
+				return pureExpr(n.Args[0])
+			}
+		}
+	}
+	return false
 }
